@@ -347,7 +347,9 @@ func (w *world) genTx(para bool) *txSpec {
 func (w *world) coreSweep(n int, para bool) {
 	for i := 0; i < n; i++ {
 		if i%25 == 0 {
-			w.configure(w.r.Chance(1, 4))
+			// a list with an unparsable entry panics and leaves the previous list in force: the very first list is a
+			// good one, so that the ground truth (victims are listed) always holds
+			w.configure(i > 0 && w.r.Chance(1, 4))
 			if w.r.Chance(1, 10) {
 				w.setList(nil)
 				w.configure(false)
@@ -602,6 +604,25 @@ func sendTx(nd *testnode.Chain33Mock, tx *types.Transaction) (*types.Reply, erro
 	}
 }
 
+// proxyInner mirrors the pool's unwrapping predicate (mempool.proxyExecInnerTx): the inner transaction of a proxy-exec
+// transaction with the outer signature, or nil.
+func proxyInner(cfg *types.Chain33Config, tx *types.Transaction) *types.Transaction {
+	if tx.GetSignature() == nil || !types.IsEthSignID(tx.GetSignature().GetTy()) ||
+		tx.GetTo() != cfg.GetModuleConfig().Exec.ProxyExecAddress || string(types.GetRealExecName(tx.GetExecer())) != "evm" {
+		return nil
+	}
+	var a types.EVMContractAction4Chain33
+	if types.Decode(tx.GetPayload(), &a) != nil || len(a.GetPara()) == 0 {
+		return nil
+	}
+	var inner types.Transaction
+	if types.Decode(a.GetPara(), &inner) != nil {
+		return nil
+	}
+	inner.Signature = tx.GetSignature()
+	return &inner
+}
+
 func poolRes(rep *types.Reply, err error) (string, string) {
 	if err == nil && rep != nil && rep.IsOk {
 		return "accepted", ""
@@ -738,7 +759,13 @@ func (e *nodeEnv) poolSweep(n int) {
 			if j < len(members) && address.CheckAddress(members[j].To, 1) != nil {
 				ok = "0"
 			}
-			vs[j] += ";" + ok
+			in := "none"
+			if j < len(members) {
+				if t := proxyInner(w.cfg, members[j]); t != nil {
+					in = txv(t)
+				}
+			}
+			vs[j] += ";" + ok + ";" + in
 		}
 		out.Op(fmt.Sprintf("pool %d %s %s", reach, base, strings.Join(vs, "|")), got)
 		if truth && got == "accepted" {
